@@ -31,33 +31,52 @@ class LaneViolation(Exception):
         self.node = node
 
 
-class P:
-    __slots__ = ('v',)
+class ShapeViolation(LaneViolation):
+    """An in-place update whose target has the shape of fewer operands than the value: numpy cannot broadcast
+    the value into the target when that operand is the larger one."""
 
-    def __init__(self, v):
+
+ANY = 'ANY'     # provenance marker: array already has the full broadcast shape (e.g. `out`)
+
+
+def prov_of(x):
+    if isinstance(x, (P, U8, Arr)):
+        return x.prov
+    if isinstance(x, View):
+        return x.arr.prov
+    return frozenset()
+
+
+class P:
+    __slots__ = ('v', 'prov')
+
+    def __init__(self, v, prov=frozenset()):
         self.v = v
+        self.prov = prov
 
 
 class U8:
-    __slots__ = ('b',)
+    __slots__ = ('b', 'prov')
 
-    def __init__(self, planes):
+    def __init__(self, planes, prov=frozenset()):
         self.b = list(planes)
+        self.prov = prov
         assert len(self.b) == 8
 
     def copy(self):
-        return U8(self.b)
+        return U8(self.b, self.prov)
 
 
 class Arr:
-    __slots__ = ('p', 'name')
+    __slots__ = ('p', 'name', 'prov')
 
-    def __init__(self, planes, name='?'):
+    def __init__(self, planes, name='?', prov=frozenset({ANY})):
         self.p = list(planes)
         self.name = name
+        self.prov = prov
 
     def copy(self):
-        return Arr(self.p, self.name)
+        return Arr(self.p, self.name, self.prov)
 
 
 class View:
@@ -162,10 +181,10 @@ class Interp:
         if isinstance(node, ast.UnaryOp) and isinstance(node.op, ast.Invert):
             v = self.ev(node.operand, env)
             if isinstance(v, U8):
-                return U8([~x & M for x in v.b])
+                return U8([~x & M for x in v.b], v.prov)
             if isinstance(v, int) and not isinstance(v, bool):
                 return ~v
-            return P(~self.as_plane(v, node) & M)
+            return P(~self.as_plane(v, node) & M, prov_of(v))
         if isinstance(node, ast.BinOp):
             a = self.ev(node.left, env)
             b = self.ev(node.right, env)
@@ -178,7 +197,7 @@ class Interp:
                 eq = M
                 for x, y in zip(ua.b, ub.b):
                     eq &= ~(x ^ y) & M
-                return P(eq if isinstance(node.ops[0], ast.Eq) else ~eq & M)
+                return P(eq if isinstance(node.ops[0], ast.Eq) else ~eq & M, prov_of(a) | prov_of(b))
             raise ModelError(f'comparison {ast.unparse(node)}')
         if isinstance(node, ast.Call):
             return self.call(node, env)
@@ -218,15 +237,16 @@ class Interp:
 
     def binop(self, op, a, b, node):
         M = self.sp.MASK
+        pv = prov_of(a) | prov_of(b)
         if isinstance(a, View):
-            a = P(self.read_view(a, node))
+            a = P(self.read_view(a, node), a.arr.prov)
         if isinstance(b, View):
-            b = P(self.read_view(b, node))
+            b = P(self.read_view(b, node), b.arr.prov)
         if isinstance(op, (ast.LShift, ast.RShift)):
             if isinstance(a, U8) and isinstance(b, int):
                 if isinstance(op, ast.LShift):
-                    return U8(([0] * b + a.b)[:8])
-                return U8((a.b[b:] + [0] * b)[:8])
+                    return U8(([0] * b + a.b)[:8], a.prov)
+                return U8((a.b[b:] + [0] * b)[:8], a.prov)
             if isinstance(a, int) and isinstance(b, int):
                 return a << b if isinstance(op, ast.LShift) else a >> b
             raise ModelError(f'shift {ast.unparse(node)[:60]}')
@@ -243,13 +263,13 @@ class Interp:
             else:
                 pa, pb = self.as_u8(a, node), self.as_u8(b, node)
             f = {ast.BitAnd: lambda x, y: x & y, ast.BitOr: lambda x, y: x | y, ast.BitXor: lambda x, y: x ^ y}[type(op)]
-            return U8([f(x, y) & M for x, y in zip(pa.b, pb.b)])
+            return U8([f(x, y) & M for x, y in zip(pa.b, pb.b)], pv)
         x, y = self.as_plane(a, node), self.as_plane(b, node)
         if isinstance(op, ast.BitAnd):
-            return P(x & y)
+            return P(x & y, pv)
         if isinstance(op, ast.BitOr):
-            return P(x | y)
-        return P(x ^ y)
+            return P(x | y, pv)
+        return P(x ^ y, pv)
 
     def _arith(self, op, a, b, node):
         if isinstance(op, ast.Add):
@@ -325,11 +345,18 @@ class Interp:
                     cur.arr.p[cur.j] = self.as_plane(new, node)
                     return
                 if isinstance(cur, U8):
+                    self.shape_check(cur, value, node, target.id)
                     new = self.binop(aug, cur, value, node)
                     cur.b = list(self.as_u8(new, node).b)   # in-place on the array object
                     return
                 if cur is None:
                     raise ModelError(f'augmented assignment to unbound {target.id}')
+                if isinstance(cur, P):
+                    self.shape_check(cur, value, node, target.id)
+                    r = self.binop(aug, cur, value, node)
+                    r.prov = cur.prov            # numpy updates the existing array in place: its shape does not grow
+                    env[target.id] = r
+                    return
                 env[target.id] = self.binop(aug, cur, value, node)
                 return
             env[target.id] = value
@@ -366,6 +393,14 @@ class Interp:
                 ref.b = list(self.as_u8(value, node).b)
                 return
         raise ModelError(f'store target {ast.unparse(target)[:60]}')
+
+    def shape_check(self, cur, value, node, name):
+        tp, vp = prov_of(cur), prov_of(value)
+        if ANY in tp or vp <= tp:
+            return
+        raise ShapeViolation(f'`{ast.unparse(node)[:80]}` updates `{name}` in place: it has the shape of operand(s) {sorted(map(str, tp))} but the value '
+                             f'has the shape of operand(s) {sorted(map(str, vp))}; numpy cannot broadcast into the target when a later operand is larger '
+                             f'(ValueError: non-broadcastable output operand)', node)
 
     def exec_block(self, stmts, env):
         for st in stmts:
